@@ -1,3 +1,4 @@
+pub mod code;
 pub mod color;
 pub mod config;
 pub mod diff;
